@@ -214,6 +214,8 @@ class Engine:
         self.fresh = 0
         self.obligations = []
         self.last_unknown = ""
+        self.cross_time = 0.0
+        self.cross_undecided = 0
 
     # ---------------------------------------------------------------- solving
     def add(self, *terms):
@@ -320,12 +322,19 @@ class Engine:
         return "unknown", None, "none"
 
     def _cross(self, extra, verdict):
-        "thorough tier: replay decided-unsat queries through cvc5; disagreement is fatal"
+        """thorough tier: replay decided-unsat queries through cvc5 (a budget of 90 s / 400 queries per
+        job, 3 s each); a disagreement is fatal, an undecided replay is ignored"""
         if not self.crosscheck:
+            return
+        if self.cross_time > 90.0 or self.stats.crosschecked + self.cross_undecided >= 400:
             return
         s = z3.Solver()
         s.add(self.asserts + extra)
-        res = cvc5_check(s.to_smt2(), 10000)
+        t0 = time.time()
+        res = cvc5_check(s.to_smt2(), 3000)
+        self.cross_time += time.time() - t0
+        if res not in ("sat", "unsat"):
+            self.cross_undecided += 1
         if res in ("sat", "unsat"):
             self.stats.crosschecked += 1
             if res != verdict:
